@@ -1,7 +1,10 @@
-(** * F_C12: the code AS WRITTEN violates C12 (witnesses replayed on /repo by tools/props/C12.py).
+(** * F_C12: behaviours of the analyses BEFORE the repairs committed in /repo (2484c60, a9fc355, 01b2de4, 482c56a),
+    kept as refutations of the pre-fix lookups (indexing the explicit list with the lens's own primary index, keying the
+    fan by the lens's primary wavelength).  The repaired rule is proved in Lemmas/L_C12_spot.v / L_C12_misc.v
+    (centroid_reference_*, rayfan_field_total); binary64 regression examples are in Lemmas/L_C12_float.v.
     Compiled separately; never gates the check. *)
-From Coq Require Import String Reals Lra Lia ZArith List Bool PrimFloat.
-From OV Require Import Ops RInst FloatInst Num.OpsC12 Gen.Analysis Model.M_C12 Spec.S_C12
+From Coq Require Import String Reals Lra Lia ZArith List Bool.
+From OV Require Import Ops RInst Num.OpsC12 Gen.Analysis Model.M_C12 Spec.S_C12
   Lemmas.L_C12_lists Lemmas.L_C12_spot Lemmas.L_C12_misc.
 Import ListNotations.
 Local Open Scope R_scope.
@@ -42,41 +45,3 @@ Proof.
   apply rayfan_key_error. intros [H|[]]. lra.
 Qed.
 
-(** ** binary64 witnesses (the regenerated kernels executed on PrimFloat) *)
-Local Open Scope float_scope.
-
-(** grid-distortion-centre-sample: an odd number of grid points puts a sample on the axis, where the predicted radius
-    is 0: 0/0 = NaN, and np.max propagates it.  3 x 3 grid of a distortion-free f-theta lens. *)
-Definition grid3_H : list float := [-1; 0; 1].
-Definition grid3_Hx : list float := grid3_H ++ grid3_H ++ grid3_H.
-Definition grid3_Hy : list float := [-1; -1; -1; 0; 0; 0; 1; 1; 1].
-Definition grid3_check : bool :=
-  match k_grid_distortion FOps "f-theta" 1e-10 (180 / F_pi) grid3_Hx grid3_Hy
-          (map (fun h => - h) grid3_Hx) grid3_Hy with
-  | Some (_, _, _, _, m) => F_isnan m
-  | None => false
-  end.
-Example grid_centre_sample_nan : grid3_check = true.
-Proof. vm_compute. reflexivity. Qed.
-
-(** the same lens on a 2 x 2 grid (no sample on the axis) reports (almost) no distortion *)
-Definition grid2_check : bool :=
-  match k_grid_distortion FOps "f-theta" 1e-10 (180 / F_pi) [-1; 1; -1; 1] [-1; -1; 1; 1]
-          [1; -1; 1; -1] [-1; -1; 1; 1] with
-  | Some (_, _, _, _, m) => (m <? 1e-9) && (0 <=? m)
-  | None => false
-  end.
-Example grid_even_ok : grid2_check = true.
-Proof. vm_compute. reflexivity. Qed.
-
-(** D16 (distortion-object-height-tan): for object-HEIGHT fields the reference is still c tan(H radians(h_max)).
-    A perfectly linear finite-conjugate lens (image height = -2 x object height, h_max = 20 mm) is reported with
-    about -4 % distortion at the edge of the field. *)
-Definition d16_Hy : list float := [1e-10; 0.5; 1].
-Definition d16_check : bool :=
-  match k_distortion_ftan FOps d16_Hy [0.55] (map (fun h => -2 * (20 * h)) d16_Hy) 20 with
-  | Some [d] => nth 2 d 0 <? -3
-  | _ => false
-  end.
-Example distortion_object_height_nonzero : d16_check = true.
-Proof. vm_compute. reflexivity. Qed.
